@@ -295,10 +295,87 @@ def make_pool(K, reach=False):
     return fn
 
 
+def make_pool_wiring(K, reach=False):
+    """The real ComponentPoolStatusTracker (real constructor, real channels) with probe trackers: K set-power outcomes are published through
+    update_status(), back to back or with the event loop running in between (symbolic), each naming battery 9 / 19 as succeeded, failed or
+    not at all; every tracker must see every outcome, in order; statuses sent by the probes must be merged into the pool status."""
+    import asyncio
+    from datetime import timedelta
+    from harness import fx
+    from frequenz.channels import Broadcast
+    from frequenz.sdk.actor import BackgroundService
+    from frequenz.sdk.microgrid._power_distributing._component_pool_status_tracker import ComponentPoolStatusTracker
+    from frequenz.sdk.microgrid._power_distributing._component_status import ComponentStatus, ComponentStatusTracker
+
+    def fn(ex):
+        probes = {}
+
+        class Probe(ComponentStatusTracker, BackgroundService):
+            def __init__(self, component_id, max_data_age, max_blocking_duration, status_sender, set_power_result_receiver):
+                BackgroundService.__init__(self, name=f"probe{component_id}")
+                self.cid, self.rx, self.tx, self.got = component_id, set_power_result_receiver, status_sender, []
+                probes[component_id] = self
+
+            def start(self):
+                self._tasks.add(asyncio.create_task(self._watch()))
+
+            async def _watch(self):
+                async for r in self.rx:
+                    self.got.append(r)
+                    # like the real tracker: a failure makes the battery uncertain, a success working
+                    if self.cid in r.failed:
+                        await self.tx.send(ComponentStatus(self.cid, St.UNCERTAIN))
+                    elif self.cid in r.succeeded:
+                        await self.tx.send(ComponentStatus(self.cid, St.WORKING))
+        outcomes = [{c: ["succeeded", "failed", "absent"][ex.choice(f"outcome{k}_{c}", 3)] for c in (9, 19)} for k in range(K)]
+        gaps = [ex.flag(f"loop_runs_after{k}") for k in range(K - 1)]
+
+        async def scenario():
+            ch = Broadcast[ComponentPoolStatus](name="pool")
+            rx = ch.new_receiver(limit=100)
+            pool = ComponentPoolStatusTracker(component_ids={9, 19}, component_status_sender=ch.new_sender(), max_data_age=timedelta(seconds=10),
+                                              max_blocking_duration=timedelta(seconds=30), component_status_tracker_type=Probe)
+            await asyncio.sleep(0.1)
+            for k, o in enumerate(outcomes):
+                await pool.update_status({c for c in o if o[c] == "succeeded"}, {c for c in o if o[c] == "failed"})
+                if k < K - 1 and gaps[k]:
+                    await asyncio.sleep(0.1)
+            await asyncio.sleep(1.0)
+            last = None
+            while True:
+                try:
+                    last = await asyncio.wait_for(rx.receive(), 0.01)
+                except asyncio.TimeoutError:
+                    break
+            working = pool.get_working_components({9, 19})
+            await pool.stop()
+            return last, working
+        last, working = fx.run_loop(scenario())
+        if reach:
+            ex.check(False, "reach")
+            return
+        for c in (9, 19):
+            seen = [("failed" if c in r.failed else "succeeded" if c in r.succeeded else "absent") for r in probes[c].got]
+            exp = [o[c] for o in outcomes]
+            ex.check(seen == exp, f"tracker of battery {c} saw the outcomes {seen}, published were {exp}")
+        state = {}
+        for o in outcomes:
+            for c in (9, 19):
+                if o[c] != "absent":
+                    state[c] = St.UNCERTAIN if o[c] == "failed" else St.WORKING
+        w = {c for c, v in state.items() if v == St.WORKING}
+        u = {c for c, v in state.items() if v == St.UNCERTAIN}
+        if state:
+            ex.check(last is not None and last.working == w and last.uncertain == u, f"pool status {last} after the outcomes, expected working={w} uncertain={u}")
+        ex.check(working == (w or u), f"get_working_components = {working}, expected {w or u}")
+    return fn
+
+
 def instances(tier):
     I = Instance
     out = [I("reach:block3", "make", (3, True, True), "reachability twin (reaches UNCERTAIN)", budget_s=100, validate_every=0),
            I("events-3", "make", (3,), "3 arbitrary events", budget_s=200, validate_every=200),
+           I("pool-wiring-3", "make_pool_wiring", (3,), "real ComponentPoolStatusTracker with probe trackers: 3 set-power outcomes published back to back or spaced, 2 batteries", budget_s=200, validate_every=50),
            I("pool-4", "make_pool", (4,), "ComponentPoolStatusTracker: every sequence of 4 status notifications from 2 batteries", budget_s=200, validate_every=50)]
     if tier == "quick":
         out += [I("events-4", "make", (4,), "4 arbitrary events", budget_s=600, validate_every=2000),
